@@ -40,6 +40,7 @@ def child_main(argv: list[str]) -> int:
     rec = Rec(pid)
     t0 = time.time()
     rec.cls("interpreter:" + shard.get("config", "default"))
+    rec.cls("package_loggers_enabled_for:" + os.environ.get("VMON_LOGLEVEL", "DEBUG"))
     try:
         prop = load_prop(pid)
         if shard.get("__replay__"):
@@ -68,6 +69,9 @@ CONFIGS = [
     ("-O", {"pyflags": ["-O"]}),
     ("ascii-locale", {"env": {"LC_ALL": "C", "LANG": "C", "PYTHONUTF8": "0", "PYTHONCOERCECLOCALE": "0"}}),
     ("-OO", {"pyflags": ["-OO"]}),
+    # warnings promoted to errors (`python -W error`, pytest's filterwarnings=error): applied by harness.parse around the
+    # library's main entry point only, see harness.werror
+    ("-W error", {"env": {"VMON_WERROR": "1"}}),
 ]
 
 
@@ -291,6 +295,10 @@ def main(argv: list[str]) -> int:
         return 2
     os.environ["VERIF_TIER"] = tier
     shards = prop.shards(tier, seed)
+    for k, sh in enumerate(shards):  # log level as a workload dimension (env.import_chartparse)
+        e = dict(sh.get("env") or {})
+        e.setdefault("VMON_LOGLEVEL", "WARNING" if (k + seed) % 2 else "DEBUG")
+        sh["env"] = e
     shards = shards + config_variants(pid, shards, seed, tier)
     watchdog = getattr(prop, "WATCHDOG", {"quick": 900, "thorough": 5400})[tier]
     agg = merge(run_children(pid, tier, seed, shards, watchdog))
